@@ -64,6 +64,8 @@ def kernel_paths(it, m, f, args, max_paths=64):
     return res
 
 
+TECHNIQUE += '; the same theorem for the incompressible solid classes against the K -> infinity limit of the kernel (limit cross-checked on the extracted kernel at a pinned, very large K); whole-driver runs with the tidal type requested after another type'
+
 def run(chk):
     repo = Repo(chk.repo)
 
